@@ -7,7 +7,7 @@ TECH = 'static analysis: rustc_private MIR fact extraction + repository-specific
 
 CLAIMED = {
     'C01': ('snapshot-table routing evaluated exhaustively over the tree constants, fan-out completeness, open-mode classification '
-            '(stream files truncated), start-up order on the call graph, codec field coverage, end-of-log detection predicate (truth table), namespace snapshot filter and marker record, start-up restore independent of the last-applied index',
+            '(stream files truncated), start-up order on the call graph, codec field coverage, end-of-log detection predicate (truth table), namespace snapshot filter and marker record, start-up restore independent of the last-applied index, derived indexes current during replay, no field filled with a literal between live state and snapshot record, snapshot header read like any record, nothing served before the restore has finished',
             'routing walk under each table constant, who-calls-whom order, typestate of OpenOptions chains, field sets', '3 C01'),
     'C02': ('index-area writer/rewinder agreement (taint), validated end-of-data test, acknowledgement edge-dominated by the awaited '
             'write result, contiguity guard, no discarded Result on the append chain, catalogue paired with log-list changes',
@@ -17,21 +17,21 @@ CLAIMED = {
     'C04': ('write ordering (data before index, flush before Ok, snapshot publication order), single-writer ownership table, '
             'fresh-image layout, last-applied after apply, recovery scan counts on every exit (else zero terminator), header before preallocation of a fresh log file, exclusive bound of the snapshot unlink loop', 'dominance / must-pass-through on MIR CFGs + who-may-call table', '3 C04'),
     'C05': ('save routing and funnel into write_index under ctx.wait, fresh-file threshold below the smallest record, exclusive '
-            'ownership of catalogue fields, reader/writer field agreement of the DTO codec, membership/addresses of an installed snapshot reach the index file', 'pairing + constant comparison + field sets', '3 C05'),
+            'ownership of catalogue fields, reader/writer field agreement of the DTO codec, membership/addresses of an installed snapshot reach the index file; the answer of a save is delivered after its queued write (actor future), no read of a field whose assignment is still scheduled, every change_membership caller writes a Members entry', 'pairing + constant comparison + field sets', '3 C05'),
     'C06': ('error discipline on the config commit chain only: no discarded Result from the route to Raft::client_write, every caller '
             'branches on the result, follower temp value only after the leader answered, follower apply path uses do_send only (no try_send / detached task)', 'discard analysis + call graph + dominance', '3 C06'),
     'C07': ('the three hand-written dispatch copies reduced to per-variant normal forms (actor, message, variant, field mapping) and '
-            'compared; last-applied recording; order preservation on the follower path', 'sibling cross-check over normal forms', '3 C07'),
+            'compared; last-applied recording; order preservation on the follower path; the node-local tmp mark is raised only on different content; derived indexes are current when a replayed request reads them', 'sibling cross-check over normal forms', '3 C07'),
     'C08': ('install path reaches the state-machine loader on the call graph (with actix message edges), header membership persisted, '
-            'install file truncated, install order', 'call-graph reachability + taint + dominance', '3 C08'),
+            'install file truncated, install order; membership saved on install comes from the installed header, not from a field still awaiting its scheduled assignment', 'call-graph reachability + taint + dominance', '3 C08'),
     'C09': ('value map <-> listing index pairing, md5 provenance from get_md5 of the same content, unchanged-content short circuit guard, '
             'history bound, key separator round trip (decoded format templates), index size counter guard, listing total = counter incremented by 1 under both filters', 'pairing + taint + guard analysis', '3 C09'),
     'C10': ('change implies both notifications on every path, subscriber entries dropped only when empty after the member removal, atomic compare-and-register (synchronous handler, complementary edges), '
-            'comparison shape, timeout driver re-arm, subscriber map mirroring', 'must-pass-through + guard analysis', '3 C10'),
+            'comparison shape, timeout driver re-arm, subscriber map mirroring; the full-value path (import entry, installed snapshot record) notifies unless an md5 comparison says unchanged', 'must-pass-through + guard analysis', '3 C10'),
     'C11': ('service map <-> namespace index pairing, empty-service guard, reverse map maintenance, counter co-update with sign and '
             'condition per Service mutator, reverse-set update keyed by the removed instance\'s owner', 'pairing + guard analysis + arithmetic shape', '3 C11'),
     'C12': ('ownership refusal path in remove_instance, disconnect passes the owner and spares persistent instances, query filter truth '
-            'table (exhaustive), registration keeps its fields, lists handed to the protection-threshold filter fetched unfiltered', 'guard analysis + exhaustive interpretation of the filter closure', '3 C12'),
+            'table (exhaustive), registration keeps its fields, lists handed to the protection-threshold filter fetched unfiltered; each reconciliation path (disconnect, distro diff, raft RemoveInstance) removes only the kind it owns; the healthy-only flag of a query command comes from the request; weight / enabled / ephemeral of a request reach the instance', 'guard analysis + exhaustive interpretation of the filter closure', '3 C12'),
     'C13': ('is_enable_timeout truth table (exhaustive), re-validation before expiry, arming whenever (and only when) the stored instance is subject to the clock, take-over makes the instance local, liveness fields never inherited from the stored record, driver chain', 'abstract interpretation + guard analysis', '3 C13'),
     'C14': ('position and modulus of the owner range computed over the same (valid) population as route_addr, same hasher, is_range truth '
             'table (exhaustive on a grid), range refresh after status change and its propagation to the naming actor\'s copy', 'taint + exhaustive interpretation + pairing', '3 C14'),
@@ -44,9 +44,9 @@ CLAIMED = {
     'C18': ('privilege predicates as exhaustive truth tables, every console data handler guarded by a privilege check or handing the '
             'session privilege to the listing, listing filters guarded, every listing producer that receives the privilege consults it, is_all() implies every key permitted, session privilege provenance', 'abstract interpretation + guard analysis over the route table', '3 C18'),
     'C19': ('high-water marks reach the sequence on all apply paths, snapshot stores the reserved end, single id source, SimpleSequence '
-            'arithmetic by exhaustive small-grid interpretation, SeqGroup buffer order by exhaustive interpretation over its state classes, range results taken from the replicated reply', 'taint + sibling forms + abstract interpretation', '3 C19'),
+            'arithmetic by exhaustive small-grid interpretation, SeqGroup buffer order by exhaustive interpretation over its state classes, range results taken from the replicated reply; start-up returns only after a round trip through the restoring StateApplyManager (restore registered with wait); a failed publish resets the local id reservation', 'taint + sibling forms + abstract interpretation', '3 C19'),
     'C20': ('varint writer/reader/size agreement for ALL u64 by exhaustive abstract interpretation of MIR over 65 leading-bit classes; '
-            'buffer reads guarded by and bounded to the valid end; is_empty truth table; end-marker test; consumer alternation', 'abstract interpretation (bit provenance) + guard analysis', '3 C20'),
+            'buffer reads guarded by and bounded to the valid end; is_empty truth table; end-marker test; consumer alternation; reads into data-sized buffers repeat until full; an incomplete record leads back to a read in every chunk consumer (header included)', 'abstract interpretation (bit provenance) + guard analysis', '3 C20'),
 }
 
 NOT_YET = {}
